@@ -74,11 +74,6 @@ def oracle_cases(tier, rng):
     for nm in [s[0] for s in inv_specs()]:
         for chk in ('dtype', 'accuracy', 'none_dtype', 'default_call'):
             yield dict(transform=nm, check=chk, seed=int(rng.integers(1 << 30)))
-    # float32 data near the top of the range: every quantity the transform has to form (row-filtered image, the four subbands, the
-    # complex coefficients) is below 0.93 * float32 max, so the float32 result is finite and as accurate as anywhere else
-    for b in ('near_sym_a', 'near_sym_b', 'antonini', 'legall'):
-        for rep in range(3):
-            yield dict(transform='dtcwt1/' + b, check='toprange', seed=int(rng.integers(1 << 30)))
 
 def strat_key(cfg):
     return cfg['transform'] + '/' + cfg['check'] + '/' + str(cfg.get('kind', ''))
@@ -98,29 +93,6 @@ def oracle_run(cfg):
         fwd = {s[0]: s for s in specs(r)}
         inv = {s[0]: s for s in inv_specs()}
         chk = cfg['check']
-        if chk == 'toprange':
-            from pytorch_wavelets import DTCWTForward
-            FMAX = float(np.finfo(np.float32).max)
-            torch.set_default_dtype(torch.float32)
-            m32 = DTCWTForward(J=1, biort=cfg['transform'].split('/')[1]); m64 = copy.deepcopy(m32).double()
-            pat = torch.tensor(r.integers(0, 2, size=(2, 3, 16, 24)) * 2.0 - 1.0, dtype=torch.float64)
-            yl, yh = m64(pat)
-            z = yh[0]
-            m_out = max(float(yl.abs().max()), float(z.abs().max()))
-            # the subbands behind each pair of orientations (15/165, 45/135, 75/105): (z_k +- z_{5-k}) / sqrt 2, real and imaginary parts
-            m_sub = max(float(((z[:, :, k] + sg * z[:, :, 5 - k]) / np.sqrt(2)).abs().max()) for k in range(3) for sg in (1, -1))
-            m_row = max(float(m64.h0o.abs().sum()), float(m64.h1o.abs().sum()))            # |pattern| = 1
-            scale = 0.93 * FMAX / max(m_out, m_sub, m_row)
-            x32 = (pat * scale).float()
-            y64 = flat(m64(x32.double())); y32 = flat(m32(x32))
-            gain = (float(m64.h0o.abs().sum()) + float(m64.h1o.abs().sum())) ** 2
-            bound = 64 * eps32 * gain * float(x32.abs().max())
-            for a, b in zip(y32, y64):
-                if a.dtype != torch.float32 or not torch.isfinite(a).all():
-                    return dict(detail='float32 result has %d non-finite entries for data of magnitude %.3g whose exact coefficients are at most %.3g' % (int((~torch.isfinite(a)).sum()), float(x32.abs().max()), float(b.abs().max())))
-                if float((a.double() - b).abs().max()) > bound:
-                    return dict(detail='max|y32-y64| = %.3g > %.3g near the top of the float32 range' % (float((a.double() - b).abs().max()), bound))
-            return None
         if cfg['transform'] in fwd:
             nm, mk, shp, bias = fwd[cfg['transform']]
             X = r.standard_normal(shp)
